@@ -10,6 +10,8 @@ import (
 	"bytes"
 	"context"
 	"fmt"
+	"github.com/shutter-network/rolling-shutter/rolling-shutter/keyper/shutterevents"
+	abcitypes "github.com/tendermint/tendermint/abci/types"
 	"math/big"
 	"sort"
 	"strings"
@@ -29,6 +31,7 @@ type schedule struct {
 	name       string
 	phaseLen   int64
 	txPerBlock int
+	rerun      bool // the first key generation fails (keyper 2 silent, keyper 1 pauses through its dealing phase) and shuttermint starts a second one
 	byz        bool // keyper 2 is played by the harness: wrong evaluation for keyper 0, false accusation of keyper 0, no apology (keyper 1 is a bystander of both accusations, keyper 0 accuses and apologises)
 }
 
@@ -37,7 +40,12 @@ type schedule struct {
 // commitment, evaluation, accusation ...), plus one empty block per round.
 // schedule 2: as schedule 0 with a misbehaving third keyper, so that the run contains accusations
 // and apologies (crash consistency of those handlers).
-var schedules = []schedule{{"block-per-round", 6, 0, false}, {"block-per-transaction", 20, 1, false}, {"block-per-round-with-accusations", 6, 0, true}}
+// schedule 3: the first key generation fails and is re-run as a second eon of the same keyper
+// configuration (crash consistency of a re-run: eon start height differs from the configuration's).
+var schedules = []schedule{
+	{name: "block-per-round", phaseLen: 6}, {name: "block-per-transaction", phaseLen: 20, txPerBlock: 1},
+	{name: "block-per-round-with-accusations", phaseLen: 6, byz: true}, {name: "failed-then-rerun", phaseLen: 6, byz: true, rerun: true},
+}
 
 type crashPoint struct {
 	sched  int
@@ -49,9 +57,9 @@ type crashPoint struct {
 
 var (
 	points  []crashPoint
-	twin    [3]*outcome
-	censusR [3][3]int
-	censusC [3][3][]int // committing round-trip indices per keyper
+	twin    [4]*outcome
+	censusR [4][3]int
+	censusC [4][3][]int // committing round-trip indices per keyper
 )
 
 const (
@@ -83,6 +91,8 @@ func main() {
 			agg.Require("crash_between_broadcast_and_outbox_delete", 1)
 			agg.Require("runs_block-per-round", 50)
 			agg.Require("runs_block-per-transaction", 50)
+			agg.Require("runs_block-per-round-with-accusations", 50)
+			agg.Require("runs_failed-then-rerun", 50)
 			agg.Extra["census_round_trips_keyper1"] = censusR[0][1]
 			agg.Extra["census_committing_round_trips_keyper1"] = len(censusC[0][1])
 			agg.Extra["census_round_trips_keyper1_block_per_transaction"] = censusR[1][1]
@@ -122,7 +132,15 @@ func prepare(env *vlib.Env) (int, error) {
 				return 0, fmt.Errorf("crash-free twin run (%s): keyper %d reports a failed DKG", schedules[sc].name, k)
 			}
 		}
-		if schedules[sc].byz {
+		if schedules[sc].rerun {
+			if _, ok := twin[sc].vdetail["eon1_failed"]; !ok {
+				return 0, fmt.Errorf("crash-free twin run (%s): the first key generation did not fail as scripted", schedules[sc].name)
+			}
+			if !env.Thorough {
+				keypers = []int{int(env.Seed % 2)}
+			}
+		}
+		if schedules[sc].byz && !schedules[sc].rerun {
 			for _, want := range []string{"accusation", "apology"} {
 				if !strings.Contains(","+strings.Join(twin[sc].msgSeq[0], ",")+",", ","+want+",") {
 					return 0, fmt.Errorf("crash-free twin run (%s): keyper 0 sent no %s: %v", schedules[sc].name, want, twin[sc].msgSeq[0])
@@ -146,7 +164,7 @@ func prepare(env *vlib.Env) (int, error) {
 		rng := vlib.NewRng(env.Seed, 8)
 		for i := 0; i < 1500; i++ {
 			k := rng.Intn(3)
-			sc := rng.Intn(3)
+			sc := rng.Intn(4)
 			if schedules[sc].byz {
 				k = rng.Intn(2)
 			}
@@ -263,6 +281,10 @@ var dumpExclude = []string{
 
 func run(ctx context.Context, env *vlib.Env, sc int, cp *crashPoint) *outcome {
 	o := &outcome{}
+	finalEon := int64(1)
+	if schedules[sc].rerun {
+		finalEon = 2
+	}
 	var honest []bool
 	if schedules[sc].byz {
 		honest = []bool{true, true, false}
@@ -276,7 +298,14 @@ func run(ctx context.Context, env *vlib.Env, sc int, cp *crashPoint) *outcome {
 	var byz *dkgsim.Byz
 	if schedules[sc].byz {
 		byz = s.NewByz(2, dkgsim.Strategy{Commitment: "correct", Eval: map[int]string{0: "wrong", 1: "correct"}, Accuse: 0, Apology: "none", CheckIn: true, Vote: true})
+		if schedules[sc].rerun {
+			byz = s.NewByz(2, dkgsim.Strategy{Commitment: "correct", Eval: map[int]string{}, Accuse: -1, Apology: "correct", CheckIn: true, Vote: true, SilentEons: map[uint64]bool{1: true}})
+		}
 	}
+	// schedule "failed-then-rerun": keyper 1 is not scheduled from the start of eon 1 until its
+	// dealing phase is over (its dealing messages come too late), keyper 2 is silent in eon 1:
+	// only one dealer qualifies, the key generation fails and shuttermint starts eon 2
+	pauseFrom, pauseUntil := int64(-1), int64(-1)
 	all := s.Keypers
 	var live []*dkgsim.Keyper
 	for _, k := range all {
@@ -360,7 +389,15 @@ func run(ctx context.Context, env *vlib.Env, sc int, cp *crashPoint) *outcome {
 	lastFaultRound := -1
 	for round := 0; round < maxRounds; round++ {
 		o.rounds = round + 1
+		if schedules[sc].rerun && pauseFrom < 0 {
+			if h0, ok := eonStart(s, 1); ok {
+				pauseFrom, pauseUntil = h0, h0+schedules[sc].phaseLen+1
+			}
+		}
 		for _, k := range live {
+			if k.Idx == 1 && pauseFrom >= 0 && s.Chain.Height() >= pauseFrom && s.Chain.Height() < pauseUntil {
+				continue
+			}
 			sctx, c := context.WithCancel(ctx)
 			cancel = c
 			err := k.Step(sctx)
@@ -403,7 +440,7 @@ func run(ctx context.Context, env *vlib.Env, sc int, cp *crashPoint) *outcome {
 		s.Chain.CloseBlock()
 		done := 0
 		for _, k := range live {
-			r, err := k.DKGResult(ctx, 1)
+			r, err := k.DKGResult(ctx, finalEon)
 			if err != nil {
 				fail("result-query", map[string]any{"error": err.Error()})
 				return o
@@ -434,10 +471,18 @@ func run(ctx context.Context, env *vlib.Env, sc int, cp *crashPoint) *outcome {
 		if u := k.Node.CheckUnsupported(); u != "" {
 			fail("substrate-unsupported", map[string]any{"what": u})
 		}
-		r, _ := k.DKGResult(ctx, 1)
+		r, _ := k.DKGResult(ctx, finalEon)
 		if !r.Exists {
 			fail("dkg-not-finished", map[string]any{"keyper": i, "rounds": o.rounds})
 			return o
+		}
+		if schedules[sc].rerun {
+			if r1, _ := k.DKGResult(ctx, 1); r1.Exists && !r1.Success {
+				if o.vdetail == nil {
+					o.vdetail = map[string]any{}
+				}
+				o.vdetail["eon1_failed"] = true
+			}
 		}
 		o.success[i] = r.Success
 		if r.Success && r.Pure != nil && r.Pure.PublicKey != nil {
@@ -468,6 +513,24 @@ func run(ctx context.Context, env *vlib.Env, sc int, cp *crashPoint) *outcome {
 		// committing round trips: a second census with a trace
 	}
 	return o
+}
+
+// eonStart returns the height of the block in which shuttermint started the eon.
+func eonStart(s *dkgsim.Sim, eon uint64) (int64, bool) {
+	for h, res := range s.Chain.Results {
+		evs := append(append([]abcitypes.Event{}, res.BeginBlockEvents...), res.EndBlockEvents...)
+		for _, tr := range res.TxsResults {
+			evs = append(evs, tr.Events...)
+		}
+		for _, ev := range evs {
+			if e, err := shutterevents.MakeEvent(ev, int64(h+1)); err == nil {
+				if x, ok := e.(*shutterevents.EonStarted); ok && x.Eon == eon {
+					return x.Height, true
+				}
+			}
+		}
+	}
+	return 0, false
 }
 
 // judgeChain checks what the chain received from each keyper.
